@@ -103,10 +103,17 @@ func NewPMT(pmtBytes []byte) (PMT, error) {
 }
 
 func (p *pmt) parseTables(pmtBytes []byte) error {
-	sectionBytes := pmtBytes[1+PointerField(pmtBytes):]
+	start := 1 + int(PointerField(pmtBytes))
+	if start > len(pmtBytes) {
+		return gots.ErrPMTParse
+	}
+	sectionBytes := pmtBytes[start:]
 
 	for len(sectionBytes) > 2 && sectionBytes[0] != 0xFF {
 		tableLength := sectionLength(sectionBytes)
+		if len(sectionBytes) < 3+int(tableLength) {
+			return gots.ErrPMTParse
+		}
 
 		if tableID(sectionBytes) == 0x2 {
 			err := p.parsePMTSection(sectionBytes[0 : 3+tableLength])
